@@ -469,6 +469,20 @@ def descendants_table(ctx, gm):
                     if tv != pol:
                         feas = False
                         break
+                if feas is None and contains(
+                        r, lambda x: kind(x) == 'attr' and
+                        x[2] == 'exports'):
+                    # with the path and the queried path fixed, the test
+                    # still reads the export table: whether THIS object is
+                    # reported depends on which OTHER objects are exported
+                    ctx.ob('C16.D3', gm.qualname,
+                           'inclusion-depends-on-the-two-paths-only', False,
+                           'whether an exported object is reported by '
+                           'GetManagedObjects depends on the other exported '
+                           'objects (%s): "every exported object strictly '
+                           'beneath the queried path" is a test of the two '
+                           'paths alone' % term_str(r)[:100])
+                    return
                 if feas is None:
                     raise AnalysisError(
                         'getManagedObjects: the descendant test does not '
